@@ -8,6 +8,9 @@ import UnytModel.Generated.EquivFormulas
 namespace Unyt.C18
 open Unyt Unyt.Effects Unyt.Ufunc
 
+/-- the variant of the conversion code the live source has (regenerated flags) -/
+def liveFlagsW : CtuFlags := ⟨Generated.C18.ctuUnitsLast, Generated.C18.ctuReadonlyGuard, Generated.C18.outReadonlyGuard⟩
+
 /-- witnesses for `convert_to_equivalent`: `unyt_array([25., 26.], 'K*cm/angstrom')` to joule through
     `thermal` on the regenerated equivalence table -/
 def dEnergy : Dim := ⟨1, 2, -2, 0, 0, 0, 0, 0⟩
@@ -19,7 +22,7 @@ def cteCallW (re : Bool) (depth : Nat) : EquivCall Rat :=
 /-- with the RE-ENTRANT post-multiplication (unyt before fix db741b8) the call never returns: the
     instance of `reentrant_equivalence_diverges` on the regenerated table, budget 7 -/
 theorem convert_to_equivalent_reentrant_counterexample :
-    let r := runSteps (convertToEquivalentSteps Generated.liveNumpy Generated.liveRules [] [] []
+    let r := runSteps (convertToEquivalentSteps liveFlagsW Generated.liveNumpy Generated.liveRules [] [] []
         Generated.equivalences ⟨kCmPerA, ⟨.f, 8⟩, true⟩ (cteCallW true 7))
     r.err? = some .RuntimeError ∧ r.effects.length = 8 := by
   decide +kernel
@@ -27,7 +30,7 @@ theorem convert_to_equivalent_reentrant_counterexample :
 /-- with the post-multiplication on the raw buffer (the regenerated flag of the current source) the
     same call returns and has relabelled the array to joule, name cleared -/
 theorem convert_to_equivalent_raw_returns :
-    let r := runSteps (convertToEquivalentSteps Generated.liveNumpy Generated.liveRules [] [] []
+    let r := runSteps (convertToEquivalentSteps liveFlagsW Generated.liveNumpy Generated.liveRules [] [] []
         Generated.equivalences ⟨kCmPerA, ⟨.f, 8⟩, true⟩ (cteCallW Generated.C18.fixupReenters 7))
     r.err? = none
       ∧ (applyAll (fun _ x => x) 0 ⟨25, kCmPerA, ⟨.f, 8⟩, true, true⟩ r.effects).unit.dim = dEnergy
@@ -40,8 +43,8 @@ def cteCallC : EquivCall Rat :=
   { convUnit := .ok jouleW, name := "thermal", selfCoeff := 1, reenters := Generated.C18.fixupReenters }
 
 example :
-    cteGuard Generated.liveNumpy Generated.liveRules ⟨degCW.v, ⟨.f, 8⟩, true⟩ cteCallC = true
-    ∧ (runSteps (convertToEquivalentSteps Generated.liveNumpy Generated.liveRules [] [] [] Generated.equivalences
+    cteGuard liveFlagsW Generated.liveNumpy Generated.liveRules ⟨degCW.v, ⟨.f, 8⟩, true⟩ cteCallC = true
+    ∧ (runSteps (convertToEquivalentSteps liveFlagsW Generated.liveNumpy Generated.liveRules [] [] [] Generated.equivalences
         ⟨degCW.v, ⟨.f, 8⟩, true⟩ cteCallC)).err? = some .InvalidUnitOperation := by
   decide +kernel
 
